@@ -45,6 +45,9 @@
 /* find/contains/remove: placeholders never match */
 #define VA_MATCH_FIND (vg_old_k != (spif_obj_t) NULL && vg_cr == SPIF_CMP_EQUAL)
 
+/* dup loops (annotation): the copy of the ghost element carries the original's key */
+#define VA_IS_COPY_OF_K (vg_dup_obj->key == ((velem_t) vg_old_k)->key)
+
 /* frame of a mutator */
 #define ARRAY_FRAME(a) (a)->len, (a)->items; (a)->items != NULL: __CPROVER_object_whole((a)->items)
 
